@@ -318,6 +318,7 @@ CLAUSES = [
         shards_quick=3,
         required=("script-end-variant",),
         rule="see RULE",
+        fuzz=60000,
     ),
     Clause("extract", body_extract, strategy=doc_case, quick=300, thorough=6000, shards_quick=4, required=("placeholder-present", "placeholder-absent", "placeholder-multiple", "explicit-deps", "dup-serialisation", "no-deps"), rule="see RULE"),
     Clause(
